@@ -232,7 +232,11 @@ def run(chk) -> None:
                    reason=f"facts on the path to the pop: {sorted(f)}")
     for lp in loops:
         # and every due tick is released: the loop is left only when the heap is empty or its first entry is not due yet
-        exits = [t for t in cfp.nodes if t.kind == "test" and any(a is lp for a in [t.ast] + list(__import__("sa.index", fromlist=["ancestors"]).ancestors(t.ast)))]
+        from ..index import ancestors as _anc
+        inside = [t for t in cfp.nodes if t.kind == "test" and any(a is lp for a in [t.ast] + list(_anc(t.ast)))]
+        # only a test that can leave the loop decides when releasing stops: the loop condition itself, or an `if` one of whose
+        # arms breaks / returns; an `if` that merely does bookkeeping on the popped tick is not an exit
+        exits = [t for t in inside if t.ast is lp or any(isinstance(x, (ast.Break, ast.Return)) for x in ast.walk(t.ast))]
         extra = []
         for t in exits:
             for a_, pol in atoms(expand(t.ast.test, t.ast), True):
